@@ -6,13 +6,23 @@ import TgModel.Lex
 
 namespace Tg
 
-/-- state of `PreProcessor<Lexer>`: scanner rest, `Lexer::error`, `macros`, `PreProcessor::error`. -/
+/-- state of `PreProcessor<Lexer>`: scanner rest, `Lexer::error`, `macros`, `PreProcessor::error`,
+`open_conditionals`. -/
 structure Src where
   rest : List Char
   lexErr : Option String := none
   macros : List (List Char) := []
   prepErr : Option String := none
+  openConds : Nat := 0
 deriving Repr
+
+/-- how `eat_until_else_or_endif` left its loop -/
+inductive SkipEnd where
+  | Else | Endif | Eof
+deriving DecidableEq, Repr
+
+/-- the message of a conditional that is still open when the text ends -/
+def eofMsg : String := "reached EOF without matching #endif"
 
 /-- a token as delivered by a `TokenStream::eat` call -/
 structure Tok where
@@ -46,18 +56,38 @@ def nextNotTrivia : Nat → Src → List Char → List Char × Tok × Src
     if t.kind.isTrivia then nextNotTrivia fuel s1 (t.text.reverseAux racc)
     else (racc, t, s1)
 
-/-- `eat_until_else_or_endif`, starting at the given depth; `racc` = reversed consumed text -/
-def eatUntil : Nat → Nat → Src → List Char → List Char × Src
-  | 0, _, s, racc => (racc, s)
+/-- the loop of `eat_until_else_or_endif`, starting at the given depth; `racc` = reversed consumed
+text; the third component says how the loop was left -/
+def eatUntil : Nat → Nat → Src → List Char → List Char × Src × SkipEnd
+  | 0, _, s, racc => (racc, s, .Eof)
   | fuel+1, depth, s, racc =>
     let (t, s1) := s.lexEat
     let racc1 := t.text.reverseAux racc
     match t.kind with
     | .Ifdef | .Ifndef => eatUntil fuel (depth + 1) s1 racc1
-    | .Endif => if depth ≥ 2 then eatUntil fuel (depth - 1) s1 racc1 else (racc1, s1)
-    | .Else => if depth == 1 then (racc1, s1) else eatUntil fuel depth s1 racc1
-    | .Eof => (racc1, { s1 with prepErr := some "reached EOF without matching #endif" })
+    | .Endif => if depth ≥ 2 then eatUntil fuel (depth - 1) s1 racc1 else (racc1, s1, .Endif)
+    | .Else => if depth == 1 then (racc1, s1, .Else) else eatUntil fuel depth s1 racc1
+    | .Eof => (racc1, s1, .Eof)
     | _ => eatUntil fuel depth s1 racc1
+
+/-- `PreProcessor::error` (the state part; the caller returns `Error` or ignores the result):
+a message the lexer parked is taken and dropped, then the message is parked -/
+def error (s : Src) (m : String) : Src := { s with lexErr := none, prepErr := some m }
+
+/-- what `eat_until_else_or_endif` does after its loop: the lexer's parked message is taken and
+dropped; a skip that ran into the end of the text parks the message (through `error`) -/
+def afterSkip (s : Src) (e : SkipEnd) : Src :=
+  let s1 := { s with lexErr := none }
+  if e = .Eof then s1.error eofMsg else s1
+
+/-- `eat_until_else_or_endif` (depth 1) -/
+def skipCond (fuel : Nat) (s : Src) (racc : List Char) : List Char × Src × SkipEnd :=
+  let r := eatUntil fuel 1 s racc
+  (r.1, afterSkip r.2.1 r.2.2, r.2.2)
+
+/-- `if self.eat_until_else_or_endif() == SkipEnd::Else { self.open_conditionals += 1; }` -/
+def reopen (s : Src) (e : SkipEnd) : Src :=
+  if e = .Else then { s with openConds := s.openConds + 1 } else s
 
 def fuelOf (s : Src) : Nat := s.rest.length + 1
 
@@ -68,12 +98,12 @@ def processIf (ifdef : Bool) (d : Tok) (s : Src) : Tok × Src :=
     let defined := s1.macros.contains t.text
     let racc1 := t.text.reverseAux racc
     if (ifdef && !defined) || (!ifdef && defined) then
-      let (racc2, s2) := eatUntil (fuelOf s1) 1 s1 racc1
-      ({ kind := .PreProcessor, text := racc2.reverse }, s2)
-    else ({ kind := .PreProcessor, text := racc1.reverse }, s1)
+      let r := skipCond (fuelOf s1) s1 racc1
+      ({ kind := .PreProcessor, text := r.1.reverse }, reopen r.2.1 r.2.2)
+    else ({ kind := .PreProcessor, text := racc1.reverse }, { s1 with openConds := s1.openConds + 1 })
   else
     ({ kind := .Error, text := (t.text.reverseAux racc).reverse },
-     { s1 with prepErr := some (if ifdef then "expected macro name after #ifdef" else "expected macro name after #ifndef") })
+     s1.error (if ifdef then "expected macro name after #ifdef" else "expected macro name after #ifndef"))
 
 def processDefine (d : Tok) (s : Src) : Tok × Src :=
   let (racc, t, s1) := nextNotTrivia (fuelOf s) s d.text.reverse
@@ -82,7 +112,12 @@ def processDefine (d : Tok) (s : Src) : Tok × Src :=
      { s1 with macros := t.text :: s1.macros })
   else
     ({ kind := .Error, text := (t.text.reverseAux racc).reverse },
-     { s1 with prepErr := some "expected macro name after #define" })
+     s1.error "expected macro name after #define")
+
+/-- the `Eof` arm of `next_token`: the text ends inside a conditional whose branch was being
+delivered; the message waits for `take_error` -/
+def atEof (s : Src) : Src :=
+  if 0 < s.openConds ∧ s.prepErr = none then { s with openConds := 0 }.error eofMsg else s
 
 /-- `PreProcessor::eat` -/
 def eat (s : Src) : Tok × Src :=
@@ -91,10 +126,11 @@ def eat (s : Src) : Tok × Src :=
   | .Ifdef => processIf true t s1
   | .Ifndef => processIf false t s1
   | .Else =>
-    let (racc, s2) := eatUntil (fuelOf s1) 1 s1 t.text.reverse
-    ({ kind := .PreProcessor, text := racc.reverse }, s2)
-  | .Endif => ({ kind := .PreProcessor, text := t.text }, s1)
+    let r := skipCond (fuelOf s1) { s1 with openConds := s1.openConds - 1 } t.text.reverse
+    ({ kind := .PreProcessor, text := r.1.reverse }, reopen r.2.1 r.2.2)
+  | .Endif => ({ kind := .PreProcessor, text := t.text }, { s1 with openConds := s1.openConds - 1 })
   | .Define => processDefine t s1
+  | .Eof => (t, atEof s1)
   | _ => (t, s1)
 
 /-- all tokens the parser would receive, up to (excluding) `Eof` -/
@@ -103,6 +139,32 @@ def runAll : Nat → Src → Option (List Tok)
   | n+1, s =>
     if (s.eat).1.kind == .Eof then some []
     else (runAll n (s.eat).2).map ((s.eat).1 :: ·)
+
+/-- the consumer's discipline (`ParserBase::save`): the message of an `Error` token is fetched
+before the next token is asked for -/
+def pull (k : TokenKind) (s : Src) : Src := if k == .Error then s.takeError.2 else s
+
+/-- run to `Eof` under that discipline; the state in which `Eof` was delivered -/
+def drain : Nat → Src → Option Src
+  | 0, _ => none
+  | n+1, s =>
+    if (s.eat).1.kind == .Eof then some (s.eat).2
+    else drain n (pull (s.eat).1.kind (s.eat).2)
+
+/-- the message that is still parked in the token source when the text has been run to `Eof`
+under the parser's discipline — what `ParserBase::finish` will report (fuel `length + 1` is
+enough: `Src.drain_total`) -/
+def endMessage (input : List Char) : Option String :=
+  match drain (input.length + 1) (init input) with
+  | some s => (s.takeError).1
+  | none => none
+
+/-- the states the token source goes through under that discipline: look-ahead kind and source
+after `ParserBase::new` and `n` rounds of `save; lex` -/
+def chain (input : List Char) : Nat → TokenKind × Src
+  | 0 => (((init input).eat).1.kind, ((init input).eat).2)
+  | n+1 => (((pull (chain input n).1 (chain input n).2).eat).1.kind,
+            ((pull (chain input n).1 (chain input n).2).eat).2)
 
 end Src
 end Tg
